@@ -108,6 +108,8 @@ def _objective_pairing(ctx, f, p, names, rule="R-ENUM"):
     if ot is None:
         ctx.ob(rule, f, "objective pairs p_i, rho_i, M_i", None, "objective not found", required=False)
         return
+    if ot[0] == "real":
+        ot = ot[1]
     ot = expand1(ctx.model, f, ot)
     comps = [s for s in subterms(ot) if isinstance(s, tuple) and s and s[0] == "comp"]
     if not comps:
@@ -130,6 +132,33 @@ def _objective_pairing(ctx, f, p, names, rule="R-ENUM"):
     elif full:
         full = rng[2][0] == ("call", "builtins.len", (("n", "vectors"),), ())
     ctx.ob(rule, f, "objective sums over all states", bool(full) and not gens[0][2], "i in range(len(vectors))" if full else f"objective ranges over {show(rng)}", p.node)
+
+
+def real_objective(ctx, f, p, rule="R-SDP"):
+    """picos rejects a complex objective: sum_i p_i <rho_i, M_i> must be wrapped in a real part (it is real at every feasible point,
+    but it is a complex affine expression whenever the states are complex)."""
+    N0 = Normalizer(ctx.model, f, inline=False)
+    t = N0(p.objective_node) if p.objective_node is not None else None
+    ok = t is not None and (t[0] == "real" or (t[0] == "call" and t[1] in ("numpy.real", "picos.real")) or (t[0] == "attr" and t[2] == "real"))
+    ctx.ob(rule, f, "objective handed to the solver is a real part", ok if t is not None else None,
+           "real(sum_i p_i <rho_i, M_i>)" if ok else f"objective `{show(t)[:60] if t else '?'}` is a complex affine expression for complex states (picos: 'Objective function may not be complex')",
+           p.node, required=t is not None)
+
+
+def dual_readback_transposed(ctx, f, rule="R-SDP"):
+    """picos returns the dual of an LMI transposed w.r.t. the trace pairing sum_i p_i Tr(rho_i M_i): the recovered operators must be
+    transposed (= conjugated, they are Hermitian) to be the optimal measurement for complex states."""
+    N0 = Normalizer(ctx.model, f, inline=False)
+    rb = [n for n in walk_no_nested(f.node) if isinstance(n, ast.ListComp) and "get_constraint" in unparse(n.elt)]
+    if not rb:
+        ctx.ob(rule, f, "recovered measurement operators are the transposed constraint duals", None, "no read-back", required=False)
+        return
+    t = N0(rb[0].elt)
+    ok = t[0] in ("T", "conj") and t[1][0] == "attr" and t[1][2] == "dual"
+    bare = t[0] == "attr" and t[2] == "dual"
+    ctx.ob(rule, f, "recovered measurement operators are the transposed constraint duals", True if ok else False if bare else None,
+           "get_constraint(k).dual.T" if ok else "the constraint duals are returned as they come from picos: for complex states they are the entrywise conjugate of the optimal measurement "
+           "(sum_i p_i Tr(rho_i M_i) differs from the reported value)" if bare else f"read-back {show(t)[:60]}", rb[0], required=ok or bare)
 
 
 def min_error_primal(ctx, f, sense):
@@ -164,6 +193,7 @@ def min_error_primal(ctx, f, sense):
     d = sk.dangling()
     ctx.ob("R-SDP", f, "S1 every constraint reaches the problem", not d, "ok" if not d else f"`{unparse(d[0].node)[:50]}` dropped")
     _objective_pairing(ctx, f, p, ("probs", "dms", "measurements"))
+    real_objective(ctx, f, p)
     # dms = [to_density_matrix(v) for v in vectors]
     okdm = any(isinstance(n, ast.Assign) and isinstance(n.targets[0], ast.Name) and n.targets[0].id == "dms" and isinstance(n.value, ast.ListComp)
                and unparse(n.value.generators[0].iter) == "vectors" and not n.value.generators[0].ifs and "to_density_matrix" in unparse(n.value.elt)
@@ -172,6 +202,10 @@ def min_error_primal(ctx, f, sense):
     solve_threading(ctx, f, sk)
     returns_optimum(ctx, f, sk)
     return sk
+
+
+def _unused():
+    pass
 
 
 def min_error_dual(ctx, f, rel, sense):
@@ -226,6 +260,7 @@ def min_error_dual(ctx, f, rel, sense):
         it = Ni(rb[0].generators[0].iter)
         okn = it == ("call", "builtins.range", (("call", "builtins.len", (("n", "vectors"),), ()),), ())
         ctx.ob("R-ENUM", f, "one recovered measurement operator per state", okn, "k in range(len(vectors))" if okn else f"read-back ranges over {show(it)}", rb[0])
+    dual_readback_transposed(ctx, f)
     solve_threading(ctx, f, sk)
     returns_optimum(ctx, f, sk)
     return sk
